@@ -11,6 +11,15 @@ class NativeError(Exception):
     pass
 
 
+KERNEL_SOURCES = {}       # id(tweezer method) -> (source text defining it, its name): device calls of these are evaluated natively
+
+
+def register_kernels(src, ns):
+    """remember the source of the tweezer kernels of `ns` (name -> method) defined by `src`"""
+    for name, m in ns.items():
+        KERNEL_SOURCES[id(m)] = (src, name)
+
+
 class Dev:
     def __init__(self, env, kernel, xt, yt, rev=False):
         self.env, self.kernel, self.xt, self.yt, self.rev = env, kernel, list(xt), list(yt), rev
@@ -39,7 +48,17 @@ class Env:
         ordered = list(args) + [kw[n] for n in names[len(args):]]
         if len(ordered) != len(names) or set(kw) - set(names[len(args):]):
             raise NativeError("bad arguments")
-        p = TraceInterpreter(self.S).run_trace(dev.kernel, tuple(ordered), {})
+        src = KERNEL_SOURCES.get(id(dev.kernel))
+        if src is not None:
+            # the tweezer kernel's SOURCE evaluated natively and put through the reference AOD model (no tracer of the package involved)
+            from props import tracer_common as tc
+            nat = tc.run_native(src[0], src[1], tuple(ordered), self.S)
+            ref = tc.ref_trace(nat[1]) if nat[0] == "ok" and tc.ops_in_domain(nat[1]) else None
+            if ref is None:
+                raise NativeError("the device kernel yields no path")
+            p = tc.concrete_path(ref)
+        else:
+            p = TraceInterpreter(self.S).run_trace(dev.kernel, tuple(ordered), {})
         if dev.rev:
             p = reverse_path(p)
         pv = Path(ilist.IList(dev.xt), ilist.IList(dev.yt), p)
